@@ -120,148 +120,10 @@ func runC14(c *Check) {
 	c.Doc("C14-R3", "GA+CS: monotone height.")
 	c.Doc("C14-R4", "CS+VP: reader/writer codec agreement per key kind.")
 
-	// ---- key constructors: package-level functions of the store package returning a key string
-	// whose first path element is a string constant. A constructor is identified by that
-	// constant's value (the on-disk record kind); the labels are the names on the pinned tree.
-	kindLabel := map[string]string{"\"h\"": "getHeaderKey", "\"d\"": "getDataKey", "\"c\"": "getSignatureKey", "\"s\"": "getStateKey", "\"m\"": "getMetaKey", "\"i\"": "getIndexKey", "\"t\"": "getHeightKey"}
-	type ctorInfo struct {
-		fn     *ssa.Function
-		first  string
-		suffix *Term
-	}
-	ctors := map[*ssa.Function]*ctorInfo{}
-	ctorByLabel := map[string]*ctorInfo{}
-	for _, fn := range p.Funcs {
-		pk := fnPkg(fn)
-		if pk == nil || pk.Pkg.Path() != storePkg || fn.Parent() != nil || fn.Signature.Recv() != nil || fn.Blocks == nil {
-			continue
-		}
-		if res := fn.Signature.Results(); res.Len() != 1 || res.At(0).Type().String() != "string" {
-			continue
-		}
-		ci := &ctorInfo{fn: fn}
-		ctx := &Ctx{Fn: fn}
-		for _, b := range fn.Blocks {
-			for _, in := range b.Instrs {
-				switch x := in.(type) {
-				case *ssa.Alloc:
-					st := litStores(x)
-					if v := st["[0]"]; len(v) == 1 {
-						if k, ok := v[0].(*ssa.Const); ok && k.Value != nil && k.Value.Kind() == constant.String {
-							ci.first = fmt.Sprintf("%q", constant.StringVal(k.Value))
-						}
-					}
-					if v := st["[1]"]; len(v) == 1 {
-						ci.suffix = TermOf(v[0], ctx)
-					}
-				case *ssa.Return:
-					if len(x.Results) == 1 {
-						if k, ok := x.Results[0].(*ssa.Const); ok && k.Value != nil && k.Value.Kind() == constant.String {
-							ci.first = fmt.Sprintf("%q", constant.StringVal(k.Value))
-						}
-					}
-				}
-			}
-		}
-		if ci.first == "" {
-			// the elements are built by a shared helper of the package that takes the kind as a
-			// parameter (perHeightKey(prefix, height)), or the key is a package value computed once
-			for _, b := range fn.Blocks {
-				ret, ok := b.Instrs[len(b.Instrs)-1].(*ssa.Return)
-				if !ok || len(ret.Results) != 1 {
-					continue
-				}
-				switch rv := ret.Results[0].(type) {
-				case *ssa.Call:
-					cal := rv.Common().StaticCallee()
-					if cal == nil || fnPkg(cal) == nil || fnPkg(cal).Pkg.Path() != storePkg || cal.Blocks == nil {
-						continue
-					}
-					for _, cb := range cal.Blocks {
-						for _, cin := range cb.Instrs {
-							al, ok := cin.(*ssa.Alloc)
-							if !ok {
-								continue
-							}
-							st := litStores(al)
-							if v := st["[0]"]; len(v) == 1 {
-								if prm, ok := v[0].(*ssa.Parameter); ok {
-									for i, q := range cal.Params {
-										if q == prm && i < len(rv.Common().Args) {
-											if k, ok := rv.Common().Args[i].(*ssa.Const); ok && k.Value != nil && k.Value.Kind() == constant.String {
-												ci.first = fmt.Sprintf("%q", constant.StringVal(k.Value))
-											}
-										}
-									}
-								}
-							}
-							if v := st["[1]"]; len(v) == 1 && ci.first != "" {
-								ci.suffix = TermOf(v[0], &Ctx{Fn: cal, Site: rv, Parent: ctx, Depth: 1})
-							}
-						}
-					}
-				case *ssa.UnOp:
-					gl, ok := rv.X.(*ssa.Global)
-					if !ok || rv.Op != token.MUL || gl.Pkg == nil || gl.Pkg.Pkg.Path() != storePkg {
-						continue
-					}
-					if initFn := gl.Pkg.Func("init"); initFn != nil {
-						for _, ib := range initFn.Blocks {
-							for _, iin := range ib.Instrs {
-								st, ok := iin.(*ssa.Store)
-								if !ok || st.Addr != ssa.Value(gl) {
-									continue
-								}
-								if call, ok := st.Val.(*ssa.Call); ok {
-									for _, a := range call.Common().Args {
-										if sl, ok := a.(*ssa.Slice); ok {
-											if al, ok := sl.X.(*ssa.Alloc); ok {
-												if v := litStores(al)["[0]"]; len(v) == 1 {
-													if k, ok := v[0].(*ssa.Const); ok && k.Value != nil && k.Value.Kind() == constant.String {
-														ci.first = fmt.Sprintf("%q", constant.StringVal(k.Value))
-													}
-												}
-											}
-										}
-									}
-								}
-							}
-						}
-					}
-				}
-			}
-		}
-		if ci.first == "" {
-			continue
-		}
-		ctors[fn] = ci
-		if l, ok := kindLabel[ci.first]; ok {
-			if ctorByLabel[l] == nil {
-				ctorByLabel[l] = ci
-			} else {
-				c.Bad("C14-R2", "ctor ⟂ "+l+" ⟂ unique", fnName(fn), p.Pos(fn.Pos()), "two key constructors build keys of the same kind "+ci.first+": "+fnShort(ctorByLabel[l].fn)+" and "+fnShort(fn), nil)
-			}
-		}
-	}
-	// ctorOf: the label of the key constructor a term is a call of ("" if none)
-	ctorOf := func(t *Term) string {
-		if t.Op != "call" {
-			return ""
-		}
-		cv, ok := t.V.(*ssa.Call)
-		if !ok || cv.Common().StaticCallee() == nil {
-			return ""
-		}
-		ci := ctors[cv.Common().StaticCallee()]
-		if ci == nil {
-			return ""
-		}
-		if l, ok := kindLabel[ci.first]; ok {
-			return l
-		}
-		return "key-kind " + ci.first
-	}
-
+	ctors, ctorByLabel, kindLabel, ctorOf := storeKeyCtors(p, func(l string, ci, first *ctorInfo, fn *ssa.Function) {
+		c.Bad("C14-R2", "ctor ⟂ "+l+" ⟂ unique", fnName(fn), p.Pos(fn.Pos()), "two key constructors build keys of the same kind "+ci.first+": "+fnShort(first.fn)+" and "+fnShort(fn), nil)
+	})
+	_, _ = ctors, kindLabel
 	// ---- collect datastore operations of the store package
 	var ops []dsOp
 	for _, fn := range p.Funcs {
@@ -670,6 +532,7 @@ func runC14(c *Check) {
 	}
 	ruleHeightNotAheadOfDisk(c, p)
 	ruleWriteMethodsWrite(c, p)
+	ruleSinglePurposeWriters(c, p, "C14-R7")
 	// ---- R6: a getter returns the record of its own kind
 	c.Doc("C14-R6", "CS: every store method that returns a header, data, signature or state reads (itself or through the store methods it calls) the record kind that holds that value; a value reconstructed from another record is not 'what the latest write stored'.")
 	{
@@ -1327,4 +1190,242 @@ func ruleWriteMethodsWrite(c *Check, p *Prog) {
 		c.Unk(rule, "write-methods", "", "", "anchor lost: no writing method of DefaultStore found")
 	}
 	c.MinInstances(rule, 4)
+}
+
+type ctorInfo struct {
+	fn     *ssa.Function
+	first  string
+	suffix *Term
+}
+
+// storeKeyCtors discovers the key constructors of the store package (see the comment inside) and
+// returns them with the resolver from a key term to the constructor's label.
+func storeKeyCtors(p *Prog, dup func(label string, ci, first *ctorInfo, fn *ssa.Function)) (map[*ssa.Function]*ctorInfo, map[string]*ctorInfo, map[string]string, func(t *Term) string) {
+	// ---- key constructors: package-level functions of the store package returning a key string
+	// whose first path element is a string constant. A constructor is identified by that
+	// constant's value (the on-disk record kind); the labels are the names on the pinned tree.
+	kindLabel := map[string]string{"\"h\"": "getHeaderKey", "\"d\"": "getDataKey", "\"c\"": "getSignatureKey", "\"s\"": "getStateKey", "\"m\"": "getMetaKey", "\"i\"": "getIndexKey", "\"t\"": "getHeightKey"}
+	ctors := map[*ssa.Function]*ctorInfo{}
+	ctorByLabel := map[string]*ctorInfo{}
+	for _, fn := range p.Funcs {
+		pk := fnPkg(fn)
+		if pk == nil || pk.Pkg.Path() != storePkg || fn.Parent() != nil || fn.Signature.Recv() != nil || fn.Blocks == nil {
+			continue
+		}
+		if res := fn.Signature.Results(); res.Len() != 1 || res.At(0).Type().String() != "string" {
+			continue
+		}
+		ci := &ctorInfo{fn: fn}
+		ctx := &Ctx{Fn: fn}
+		for _, b := range fn.Blocks {
+			for _, in := range b.Instrs {
+				switch x := in.(type) {
+				case *ssa.Alloc:
+					st := litStores(x)
+					if v := st["[0]"]; len(v) == 1 {
+						if k, ok := v[0].(*ssa.Const); ok && k.Value != nil && k.Value.Kind() == constant.String {
+							ci.first = fmt.Sprintf("%q", constant.StringVal(k.Value))
+						}
+					}
+					if v := st["[1]"]; len(v) == 1 {
+						ci.suffix = TermOf(v[0], ctx)
+					}
+				case *ssa.Return:
+					if len(x.Results) == 1 {
+						if k, ok := x.Results[0].(*ssa.Const); ok && k.Value != nil && k.Value.Kind() == constant.String {
+							ci.first = fmt.Sprintf("%q", constant.StringVal(k.Value))
+						}
+					}
+				}
+			}
+		}
+		if ci.first == "" {
+			// the elements are built by a shared helper of the package that takes the kind as a
+			// parameter (perHeightKey(prefix, height)), or the key is a package value computed once
+			for _, b := range fn.Blocks {
+				ret, ok := b.Instrs[len(b.Instrs)-1].(*ssa.Return)
+				if !ok || len(ret.Results) != 1 {
+					continue
+				}
+				switch rv := ret.Results[0].(type) {
+				case *ssa.Call:
+					cal := rv.Common().StaticCallee()
+					if cal == nil || fnPkg(cal) == nil || fnPkg(cal).Pkg.Path() != storePkg || cal.Blocks == nil {
+						continue
+					}
+					for _, cb := range cal.Blocks {
+						for _, cin := range cb.Instrs {
+							al, ok := cin.(*ssa.Alloc)
+							if !ok {
+								continue
+							}
+							st := litStores(al)
+							if v := st["[0]"]; len(v) == 1 {
+								if prm, ok := v[0].(*ssa.Parameter); ok {
+									for i, q := range cal.Params {
+										if q == prm && i < len(rv.Common().Args) {
+											if k, ok := rv.Common().Args[i].(*ssa.Const); ok && k.Value != nil && k.Value.Kind() == constant.String {
+												ci.first = fmt.Sprintf("%q", constant.StringVal(k.Value))
+											}
+										}
+									}
+								}
+							}
+							if v := st["[1]"]; len(v) == 1 && ci.first != "" {
+								ci.suffix = TermOf(v[0], &Ctx{Fn: cal, Site: rv, Parent: ctx, Depth: 1})
+							}
+						}
+					}
+				case *ssa.UnOp:
+					gl, ok := rv.X.(*ssa.Global)
+					if !ok || rv.Op != token.MUL || gl.Pkg == nil || gl.Pkg.Pkg.Path() != storePkg {
+						continue
+					}
+					if initFn := gl.Pkg.Func("init"); initFn != nil {
+						for _, ib := range initFn.Blocks {
+							for _, iin := range ib.Instrs {
+								st, ok := iin.(*ssa.Store)
+								if !ok || st.Addr != ssa.Value(gl) {
+									continue
+								}
+								if call, ok := st.Val.(*ssa.Call); ok {
+									for _, a := range call.Common().Args {
+										if sl, ok := a.(*ssa.Slice); ok {
+											if al, ok := sl.X.(*ssa.Alloc); ok {
+												if v := litStores(al)["[0]"]; len(v) == 1 {
+													if k, ok := v[0].(*ssa.Const); ok && k.Value != nil && k.Value.Kind() == constant.String {
+														ci.first = fmt.Sprintf("%q", constant.StringVal(k.Value))
+													}
+												}
+											}
+										}
+									}
+								}
+							}
+						}
+					}
+				}
+			}
+		}
+		if ci.first == "" {
+			continue
+		}
+		ctors[fn] = ci
+		if l, ok := kindLabel[ci.first]; ok {
+			if ctorByLabel[l] == nil {
+				ctorByLabel[l] = ci
+			} else {
+				dup(l, ci, ctorByLabel[l], fn)
+			}
+		}
+	}
+	// ctorOf: the label of the key constructor a term is a call of ("" if none)
+	ctorOf := func(t *Term) string {
+		if t.Op != "call" {
+			return ""
+		}
+		cv, ok := t.V.(*ssa.Call)
+		if !ok || cv.Common().StaticCallee() == nil {
+			return ""
+		}
+		ci := ctors[cv.Common().StaticCallee()]
+		if ci == nil {
+			return ""
+		}
+		if l, ok := kindLabel[ci.first]; ok {
+			return l
+		}
+		return "key-kind " + ci.first
+	}
+
+	return ctors, ctorByLabel, kindLabel, ctorOf
+}
+
+// ruleSinglePurposeWriters (C04-R10 / C05-R7 / C14-R7): the production and the apply step order
+// the store's writes (block records, then state, then height) so that a crash between any two of
+// them can be reconciled at restart. That order means something only if each of the ordered write
+// methods writes records of its own kind and nothing else: a state write that also moves the
+// height puts the height ahead of the state, the one disagreement the restart cannot repair.
+func ruleSinglePurposeWriters(c *Check, p *Prog, rule string) {
+	c.Doc(rule, "CS: each store write method the steps put in order writes records of its own kind only (SaveBlockData: header, data, signature, hash index; UpdateState: state; SetHeight: height; SetMetadata: metadata) — looking through calls between store methods.")
+	_, _, _, ctorOf := storeKeyCtors(p, func(string, *ctorInfo, *ctorInfo, *ssa.Function) {})
+	want := map[string][]string{
+		"SaveBlockData": {"getDataKey", "getHeaderKey", "getIndexKey", "getSignatureKey"},
+		"UpdateState":   {"getStateKey"},
+		"SetHeight":     {"getHeightKey"},
+		"SetMetadata":   {"getMetaKey"},
+	}
+	n := 0
+	for _, m := range sortedKeys(want) {
+		fn := p.Func("(*" + storePkg + ".DefaultStore)." + m)
+		if fn == nil {
+			c.Unk(rule, m+" ⟂ writes its own kind only", "", "", "anchor lost: store method "+m)
+			continue
+		}
+		g := BuildECFG(p, fn, ownPkgOpts(storePkg, 3))
+		c.NoteGraph(g)
+		kinds := map[string]bool{}
+		unknown := ""
+		for _, nd := range g.Select(func(x *Node) bool { return dsCall(x, "Put") || dsCall(x, "Delete") }) {
+			k := ArgTerm(nd, 1)
+			found := ""
+			if k != nil {
+				k.Walk(func(t *Term) bool {
+					if l := ctorOf(t); l != "" {
+						found = l
+					}
+					return true
+				})
+				if found == "" {
+					// a table of entries (C14-R1): the kinds of all rows
+					if call, ok := nd.In.(*ssa.Call); ok && len(call.Common().Args) >= 2 {
+						if al, f := tableField(call.Common().Args[1], 0); al != nil {
+							lit := al
+							for _, r := range *al.Referrers() {
+								if st, ok := r.(*ssa.Store); ok && st.Addr == ssa.Value(al) {
+									if ld, ok := st.Val.(*ssa.UnOp); ok && ld.Op == token.MUL {
+										if inner, ok := ld.X.(*ssa.Alloc); ok {
+											lit = inner
+										}
+									}
+								}
+							}
+							for key, vs := range litStores(lit) {
+								if strings.HasSuffix(key, "]."+f) {
+									for _, v := range vs {
+										TermOf(v, nd.Ctx).Walk(func(t *Term) bool {
+											if l := ctorOf(t); l != "" {
+												kinds[l] = true
+												found = l
+											}
+											return true
+										})
+									}
+								}
+							}
+						}
+					}
+				}
+			}
+			if found == "" {
+				unknown = trunc(k.String(), 60) + " @" + p.InstrPos(nd.In)
+			} else {
+				kinds[found] = true
+			}
+		}
+		n++
+		got := sortedKeys(kinds)
+		inst := m + " ⟂ writes its own kind only"
+		switch {
+		case unknown != "":
+			c.Bad(rule, inst, fnName(fn), p.Pos(fn.Pos()), "the method writes a key that is not built by a key constructor: "+unknown, nil)
+		case strings.Join(got, ",") == strings.Join(want[m], ","):
+			c.OK(rule, inst, fnName(fn), p.Pos(fn.Pos()), "writes "+strings.Join(got, ", "), true)
+		default:
+			c.Bad(rule, inst, fnName(fn), p.Pos(fn.Pos()), fmt.Sprintf("the method writes records of kinds %v (directly or through another store method), expected %v: the order in which the production and apply steps call the store's writers no longer is the order of the durable writes — e.g. a state write that also moves the height leaves, after a crash in between, a height ahead of the state, which no restart reconciles", got, want[m]), nil)
+		}
+	}
+	if n < 4 {
+		c.Unk(rule, "anchor-count", "", "", fmt.Sprintf("anchor lost: %d of the 4 ordered store writers found", n))
+	}
 }
